@@ -1,12 +1,13 @@
 """C19 — The dependency container follows its simple reference model.
 
 Theorems: lean/Tranp/Props/C19.lean over lean/Tranp/Model/DI.lean (concrete dictionaries + heap of containers, abstract
-`Spec`, forward simulation, corollaries, the invoke law with its three counterexamples).
+`Spec`, forward simulation, corollaries, the combine-right law and the invoke law for every history).
 Tie: correspondence stream `di` (random op sequences on real DI / LazyDI objects vs the Lean model) plus a malformed stream.
 Search: observations(real container) == observations(reference model), where the reference model is a plain Python
-implementation of the *ideal* Spec of the property statement (no annotation cache, validation on every call, right-biased
-combine). A divergence is classified by ablation: the reference has one switch per known deviation of the pinned code; a
-deviation is exhibited by a case when switching it off alone changes the outputs of the otherwise code-faithful reference.
+implementation of the Spec of the property statement (no annotation cache, validation on every call, right-biased
+combine). The five defects repaired in /repo (c3fd82c invoke, 6d5a231 combine) stay in the reference as switches that are
+OFF: when the real code diverges, the smallest set of switches that explains the divergence names the returned defect
+(regression detector); anything else is an unexplained divergence. Either way it is a VIOLATION with the op sequence.
 """
 from __future__ import annotations
 
@@ -18,6 +19,7 @@ import os
 import random
 import sys
 from collections import Counter
+from types import FunctionType, MethodType
 from typing import Any
 
 from harness import common
@@ -158,9 +160,7 @@ TY_STR = 100
 TY_INT = 101
 NSYM = 6
 MAX_CONTS = 5
-NO_QUALNAME_FID = 7
-
-# deviations of the pinned code from the ideal Spec; key = finding key
+# defects of the snapshot tree that were repaired in /repo; kept as regression detectors; key = finding key
 DEVIATIONS = [
 	'invoke-qualname-alias',
 	'invoke-second-call-unchecked',
@@ -202,6 +202,8 @@ class World:
 		self.sym_index[int] = TY_INT
 		# factory descriptors by introspection (inspect.signature, independent of di.py's __annotations__ plucking)
 		quals: dict[str, int] = {}
+		aids: dict[Any, int] = {}
+		self.aid: list[int] = []
 		self.desc: list[tuple[int | None, list[tuple[int, bool] | None]]] = []
 		for fobj in self.factories:
 			qn = getattr(fobj, '__qualname__', None)
@@ -215,6 +217,14 @@ class World:
 				assert p.kind == p.POSITIONAL_OR_KEYWORD and p.default is p.empty
 				params.append(None if p.annotation is p.empty else self.sym_of_anno(p.annotation))
 			self.desc.append((q, params))
+			# identity (hash / equality class) of the callable whose annotations DI reads, di.py `__to_annotated`
+			if isinstance(fobj, (FunctionType, MethodType)):
+				annotated = fobj
+			elif not isinstance(fobj, type) and hasattr(fobj, '__call__'):
+				annotated = fobj.__call__
+			else:
+				annotated = fobj.__init__
+			self.aid.append(aids.setdefault(annotated, len(aids)))
 		self.name_fid = {n: self.factories.index(getattr(self.mod, n)) for n in self.by_name}
 
 	def sym_of_anno(self, anno: Any) -> tuple[int, bool]:
@@ -264,9 +274,9 @@ def sym_txt(s: tuple[int, bool]) -> str:
 
 
 def fac_txt(w: World, fid: int) -> str:
-	q, params = w.desc[fid]
+	_, params = w.desc[fid]
 	ps = ','.join('_' if p is None else sym_txt(p) for p in params) or '-'
-	return f"f{fid}/{'-' if q is None else q}/{ps}"
+	return f"f{fid}/{w.aid[fid]}/{ps}"
 
 
 def inj_txt(w: World, inj: tuple) -> str:
@@ -420,7 +430,7 @@ class RefCont:
 
 
 class Reference:
-	"""symbol ↦ (binding, lazy?, instance?) per container; `dev` = set of deviations of the pinned code to reproduce"""
+	"""symbol ↦ (binding, lazy?, instance?) per container; `dev` = repaired defects to re-enact (regression detection only)"""
 
 	def __init__(self, w: World, dev: frozenset[str] = IDEAL) -> None:
 		self.w = w
@@ -455,13 +465,18 @@ class Reference:
 
 	def invoke(self, c: RefCont, fid: int, args: list[tuple[int, int]]) -> tuple:
 		q, params = self.w.desc[fid]
-		if q is None:
-			raise RefError('AttributeError')
 		own = [p for p in params if p is not None]
-		found = q in c.memo
-		if not found:
-			c.memo[q] = own
-		annos = c.memo[q] if 'invoke-qualname-alias' in self.dev else own
+		found = False
+		annos = own
+		if self.dev:
+			# the snapshot tree keyed a cache by to_fullyname(factory)
+			if q is None:
+				raise RefError('AttributeError')
+			found = q in c.memo
+			if not found:
+				c.memo[q] = own
+			if 'invoke-qualname-alias' in self.dev:
+				annos = c.memo[q]
 		curried: list[tuple] = []
 		for a in annos:
 			if not self.can(c, a):
@@ -575,7 +590,7 @@ def gen_case(w: World, rng: random.Random, max_ops: int, search: bool) -> list[t
 	"""One op sequence. The ideal reference is stepped alongside so that most invoke calls get matching arguments."""
 	ref = Reference(w, IDEAL)
 	ops: list[tuple] = []
-	fids = [i for i in range(len(w.factories)) if not (search and i == NO_QUALNAME_FID)]
+	fids = list(range(len(w.factories)))
 	alias_groups = [[8, 9], [10, 11], [12, 13], [4, 5]]
 	xid = [0]
 	profile = rng.choice(['mixed', 'mixed', 'invoke', 'combine', 'lazy'])
@@ -860,14 +875,7 @@ def stream_malformed(ctx: Ctx, w: World) -> Stream:
 
 
 def exhibited(w: World, ops: list[tuple], real: list[str]) -> tuple[bool, list[str]]:
-	"""(code-faithful reference explains the real outputs, deviations whose removal changes the outputs)"""
-	faithful = run_ref(w, ops, ALL_DEV)
-	if faithful == real:
-		ex = [d for d in DEVIATIONS if run_ref(w, ops, ALL_DEV - {d}) != real]
-		if ex:
-			return True, ex
-	# either no single deviation is necessary (two of them lead to the same observation by different routes), or the code
-	# no longer shows all known deviations (e.g. some were repaired): smallest subset that explains the outputs
+	"""(some set of repaired defects explains the real outputs, the smallest such set) — called only when real != ideal"""
 	for size in range(1, len(DEVIATIONS) + 1):
 		for sub in itertools.combinations(DEVIATIONS, size):
 			if run_ref(w, ops, frozenset(sub)) == real:
@@ -888,10 +896,10 @@ def shrink_for(w: World, ops: list[tuple], key: str | None) -> list[tuple]:
 		real = run_real(w, cand)
 		if 'bad-op' in real:
 			return False
-		if key is None:
-			return run_ref(w, cand, ALL_DEV) != real
 		if run_ref(w, cand, IDEAL) == real:
 			return False
+		if key is None:
+			return True
 		ok, ex = exhibited(w, cand, real)
 		return ok and key in ex
 	return common.shrink_list(ops, fails, max_steps=600)
@@ -909,8 +917,6 @@ def search_reference(ctx: Ctx, w: World) -> SearchResult:
 	for i in range(n):
 		todo.append((f'random#{i}', gen_case(w, rng, max_ops if i % 3 else max(8, max_ops // 3), search=True)))
 	for name, ops in todo:
-		if any(op[0] in ('invoke', 'bind', 'rebind') and op[-1 if op[0] != 'invoke' else 2] == NO_QUALNAME_FID for op in ops):
-			continue
 		res.cases += 1
 		seen.add(json.dumps(ops))
 		real = run_real(w, ops)
@@ -938,13 +944,13 @@ def search_reference(ctx: Ctx, w: World) -> SearchResult:
 			sreal = run_real(w, small)
 			sideal = run_ref(w, small, IDEAL)
 			j = first_diff(sreal, sideal)
-			what = DEVIATION_WHAT.get(key, 'the real container and the reference model disagree in a way none of the known deviations explains')
+			what = ('RETURN OF A REPAIRED DEFECT: ' + DEVIATION_WHAT[key]) if key in DEVIATION_WHAT else 'the real container and the reference model disagree (no repaired defect explains it)'
 			res.findings.append(Finding(key=key, what=f'{what}; first seen in {name}: op {j} `{op_line(w, small[j]) if j >= 0 else "?"}` real={sreal[j] if j >= 0 else "?"} reference={sideal[j] if j >= 0 else "?"}',
 				replay={'ops': [op_to_json(o) for o in small], 'op_lines': [op_line(w, o) for o in small], 'real': sreal, 'reference': sideal, 'from': name}))
 	res.distinct = len(seen)
 	res.histogram = dict(hist)
 	res.note = ('reference = plain Python implementation of the Spec (symbol -> binding/lazy/instance per container, no annotation cache, validation on every invoke, '
-		'right-biased combine); factories without __qualname__ (callable objects, outside the documented function/method/class domain of invoke) are not generated here')
+		'right-biased combine); a divergence is named after the smallest set of repaired defects (regression switches) that explains it, else unexplained-divergence')
 	return res
 
 
